@@ -505,7 +505,7 @@ def shards(tier, seed):
                 continue  # quick: population variables on the representative kinds only
             out.append({"model": name, "ids": ["a", "b"], "driver": "protocol", "tier": tier, "variable": v})
             # the documented other fork strategy (snapshot by deep copy): same protocol, same oracle
-            if tier == "thorough" or (name == QUICK_MODELS[0] and v in ind):
+            if tier == "thorough" or (name == QUICK_MODELS[0] and (v in ind or v == pop[0])):
                 out.append({"model": name, "ids": ["a", "b"], "driver": "protocol", "tier": tier, "variable": v, "fork_mode": "COPY"})
         out.append({"model": name, "ids": ["a", "b"], "driver": "sampler", "tier": tier})
         out.append({"model": name, "ids": ["a", "b"] if tier == "quick" else ["a", "b", "c"], "driver": "dtype", "tier": tier})
